@@ -141,13 +141,23 @@ def t_from_bytes(pyx):
                     raise Untranslatable("item test does not start with isinstance(%s, list)" % v)
         return None
 
+    # which `raise DataError(…)` is the length error: the one(s) in the body of an `if` whose test reads the local that
+    # holds the declared payload length (built from `unsigned char` operands) -- by structure, not by the message text
+    size_locals = {s_.targets[0].id for s_ in ast.walk(fn) if isinstance(s_, ast.Assign) and len(s_.targets) == 1
+                   and isinstance(s_.targets[0], ast.Name) and isinstance(s_.value, ast.BinOp) and "_uchar(" in _u(s_.value)}
+    length_raises = set()
+    for n_ in ast.walk(fn):
+        if isinstance(n_, ast.If) and any(isinstance(x, ast.Name) and x.id in size_locals for x in ast.walk(n_.test)):
+            for b_ in n_.body:
+                for x in ast.walk(b_):
+                    if isinstance(x, ast.Raise):
+                        length_raises.add(id(x))
+
     def raise_(s, ex):
         e = s.exc
-        if not (isinstance(e, ast.Call) and _u(e.func) == "DataError" and len(e.args) == 1 and isinstance(e.args[0], ast.Constant)
-                and isinstance(e.args[0].value, str)):
+        if not (isinstance(e, ast.Call) and _u(e.func) == "DataError" and len(e.args) <= 1 and not e.keywords):
             raise Untranslatable("raise %s" % _u(s)[:50])
-        # the two data errors are told apart by their text (the harness does the same on the implementation)
-        return "(Except.error DecErr.badLength)" if "incorrect length" in e.args[0].value else "(Except.error DecErr.malformed)"
+        return "(Except.error DecErr.badLength)" if id(s) in length_raises else "(Except.error DecErr.malformed)"
 
     def ret(v, ex):
         if v is not None and _call(v, "tuple", 1) and S["acc"] is not None and _u(v.args[0]) == S["acc"]:
@@ -292,6 +302,17 @@ def t_as_bytes(row):
         pad = st.ind * depth
         if isinstance(s, ast.FunctionDef):
             return st.block(rest, k, depth)  # `serialize`, the `default=` callback of packb (outside the value domain)
+        tgt = s.targets[0] if isinstance(s, ast.Assign) and len(s.targets) == 1 else (s.target if isinstance(s, (ast.AnnAssign, ast.AugAssign)) else None)
+        if isinstance(tgt, ast.Attribute) and isinstance(tgt.value, ast.Name) and tgt.value.id == "self" and getattr(s, "value", None) is not None:
+            # `self.name = value`: possible only on a row object that has a `__dict__` (RowGlue.setAttr); the value must be an
+            # expression the translator knows (it is evaluated first, and could raise), the stored attribute must not be read later
+            if isinstance(s, ast.AugAssign):
+                raise Untranslatable("augmented assignment to self.%s" % tgt.attr)
+            ex.go(s.value)
+            if any(isinstance(x, ast.Attribute) and isinstance(x.value, ast.Name) and x.value.id == "self" and x.attr == tgt.attr
+                   and isinstance(x.ctx, ast.Load) for r in rest for x in ast.walk(r)):
+                raise Untranslatable("self.%s is read after it was assigned" % tgt.attr)
+            return "(RowGlue.setAttr selfHasDict (\n%s%s%s))" % (pad, st.ind, st.block(rest, k, depth + 1))
         if isinstance(s, ast.Assign) and len(s.targets) == 1 and isinstance(s.targets[0], ast.Name) and isinstance(s.value, ast.BinOp) \
                 and isinstance(s.value.op, ast.Add) and "to_bytes" in _u(s.value) and s.targets[0].id not in (S["payload"], S["ts"]):
             # a local that holds part of the record: its operands are spliced in where it is used (evaluated here, i.e.
@@ -326,8 +347,126 @@ def t_as_bytes(row):
     body = pystmt.Stmts(ex, ret=ret, raise_=raise_, stmt_hook=stmt_hook).block(_nodoc(fn.body), "FALLOFF", 1)
     if "FALLOFF" in body or S["payload"] is None or S["ts"] is None:
         raise Untranslatable("as_bytes: packb / time_ns / return not found")
-    return ("/-- orso/row.py `Row.as_bytes` after `packb` (= `payload`) and `time.time_ns()` (= `ts`), statement by statement -/\n"
-            "def as_bytes_frame (ts : Nat) (payload : RowBytes.Bytes) : Except EncErr RowBytes.Bytes :=\n  %s\n" % body)
+    return ("/-- orso/row.py `Row.as_bytes` after `packb` (= `payload`) and `time.time_ns()` (= `ts`), statement by statement;\n"
+            "`selfHasDict`: does the row object have a `__dict__` (false for instances of `Row` itself, `__slots__ = ()`) -/\n"
+            "def as_bytes_frame (selfHasDict : Bool) (ts : Nat) (payload : RowBytes.Bytes) : Except EncErr RowBytes.Bytes :=\n  %s\n" % body)
+
+
+# --------------------------------------------------------------------------- Row.from_bytes (the glue in front of the decoder)
+
+
+def module_ints(row):
+    """module-level `NAME = <int expression of literals and earlier names>` of orso/row.py"""
+    out = {}
+    for node in (row.tree.body if row.tree is not None else []):
+        tgt = val = None
+        if isinstance(node, ast.Assign) and len(node.targets) == 1:
+            tgt, val = node.targets[0], node.value
+        elif isinstance(node, ast.AnnAssign) and node.value is not None:
+            tgt, val = node.target, node.value
+        if isinstance(tgt, ast.Name) and val is not None:
+            try:
+                if all(isinstance(x, (ast.Constant, ast.BinOp, ast.operator, ast.Name, ast.Load, ast.UnaryOp, ast.unaryop)) for x in ast.walk(val)):
+                    v = eval(compile(ast.Expression(val), "<extract>", "eval"), {"__builtins__": {}}, dict(out))
+                    if isinstance(v, int) and not isinstance(v, bool) and v >= 0:
+                        out[tgt.id] = v
+            except Exception:
+                pass
+    return out
+
+
+def t_glue(row):
+    """`Row.from_bytes` statement by statement -> `RowGlue.Out`.  Known shapes: `return cls(from_bytes_cython(data))`,
+    `x = from_bytes_cython(data)` … `return cls(x)`, `return None`, `raise DataError("…")`, `if <test>:` where the test is
+    made of `data[k]` (k a literal: guarded by `RowGlue.indexed`, IndexError past the end), `len(data)`, module-level
+    integer constants, literals, `& | ^ << >>`, comparisons, `and` / `or` / `not`."""
+    fn = row.func("from_bytes", "Row")
+    if [a.arg for a in fn.args.args] != ["cls", "data"] or not any(_u(d) == "classmethod" for d in fn.decorator_list) \
+            or fn.args.vararg or fn.args.kwarg or fn.args.kwonlyargs or fn.args.defaults:
+        raise Untranslatable("from_bytes signature")
+    consts = module_ints(row)
+    reads = []
+    decoded = set()
+
+    def hook(n, go):
+        if isinstance(n, ast.Subscript) and isinstance(n.value, ast.Name) and n.value.id == "data":
+            kx = n.slice.value if _int_const(n.slice) else (consts.get(n.slice.id) if isinstance(n.slice, ast.Name) else None)
+            if kx is not None:
+                reads.append(kx)
+                return "(byteAt data %d)" % kx
+            raise Untranslatable("data[%s]" % _u(n.slice)[:30])
+        if _call(n, "len", 1) and _u(n.args[0]) == "data":
+            return "(List.length data)"
+        if isinstance(n, ast.BinOp) and type(n.op) in BITOPS:
+            return "(%s %s %s)" % (go(n.left), BITOPS[type(n.op)], go(n.right))
+        if isinstance(n, ast.Name) and n.id == "data":
+            raise Untranslatable("use of data other than data[k] / len(data) / from_bytes_cython(data)")
+        return None
+
+    def is_decoder_call(v):
+        return _call(v, "from_bytes_cython", 1) and _u(v.args[0]) == "data"
+
+    def ret(v, ex):
+        if v is None or (isinstance(v, ast.Constant) and v.value is None):
+            return '(RowGlue.Out.notRow "NoneType")'
+        if _call(v, "cls", 1):
+            a = v.args[0]
+            if is_decoder_call(a):
+                return "(RowGlue.callDecoder (from_bytes_cython data) (fun t => RowGlue.Out.row (RowGlue.rowNew t)))"
+            if isinstance(a, ast.Name) and a.id in decoded:
+                return "(RowGlue.Out.row (RowGlue.rowNew %s))" % a.id
+        raise Untranslatable("return %s" % _u(v)[:40])
+
+    def raise_(s, ex):
+        e = s.exc
+        if isinstance(e, ast.Call) and _u(e.func) == "DataError" and len(e.args) == 1 and isinstance(e.args[0], ast.Constant) \
+                and isinstance(e.args[0].value, str):
+            return "(RowGlue.Out.raised %s)" % ("DecErr.badLength" if "incorrect length" in e.args[0].value else "DecErr.malformed")
+        if isinstance(e, ast.Call) and isinstance(e.func, ast.Name) and e.func.id[:1].isupper() and e.func.id.endswith(("Error", "Exception")):
+            return "(RowGlue.Out.other %s)" % lean_str(e.func.id)
+        raise Untranslatable("raise %s" % _u(s)[:50])
+
+    def stmt_hook(s, rest, k, depth, st):
+        ex = st.ex
+        pad = st.ind * depth
+        if isinstance(s, ast.If):
+            del reads[:]
+            t = s.test
+            inty = isinstance(t, (ast.BinOp, ast.Subscript)) or (isinstance(t, ast.Name) and t.id in consts) or _call(t, "len", 1)
+            test = "(%s ≠ 0)" % ex.go(t) if inty else ex.cond(t)
+            need = sorted(set(reads))
+            del reads[:]
+            a = st.block(list(s.body) + rest, k, depth + 1)
+            b = st.block(list(s.orelse) + rest, k, depth + 1)
+            body = "if %s then\n%s%s%s\n%selse\n%s%s%s" % (test, pad, st.ind, a, pad, pad, st.ind, b)
+            # `data[k]` is evaluated before the branch is chosen: past the end it raises (the largest index decides only
+            # when every read is reached; with `and`/`or` short-circuits the smaller ones may be skipped: not translated)
+            if need and any(isinstance(x, ast.BoolOp) for x in ast.walk(t)) and len(need) > 1:
+                raise Untranslatable("several data[k] under and/or")
+            if need and any(isinstance(x, ast.BoolOp) for x in ast.walk(t)):
+                raise Untranslatable("data[k] under and/or (may be skipped by the short-circuit)")
+            for kx in reversed(need):
+                body = "(RowGlue.indexed data %d (\n%s%s))" % (kx, pad, body)
+            return body
+        if isinstance(s, ast.Assign) and len(s.targets) == 1 and isinstance(s.targets[0], ast.Name) and is_decoder_call(s.value):
+            name = s.targets[0].id
+            saved = ex.typestate()
+            ex.bound.add(name)
+            decoded.add(name)
+            try:
+                body = st.block(rest, k, depth + 1)
+            finally:
+                ex.restore(saved)
+                decoded.discard(name)
+            return "(RowGlue.callDecoder (from_bytes_cython data) (fun %s =>\n%s%s%s))" % (name, pad, st.ind, body)
+        if isinstance(s, (ast.Assign, ast.AnnAssign, ast.AugAssign, ast.Expr)) and not (isinstance(s, ast.Expr) and isinstance(s.value, ast.Constant)):
+            raise Untranslatable("statement %s" % _u(s)[:50])
+        return None
+
+    ex = pystmt.Expr(env={k_: "%d" % v for k_, v in consts.items()}, hook=hook)
+    body = pystmt.Stmts(ex, ret=ret, raise_=raise_, stmt_hook=stmt_hook).block(_nodoc(fn.body), '(RowGlue.Out.notRow "NoneType")', 1)
+    return ("/-- orso/row.py `Row.from_bytes` (the Python glue in front of the compiled decoder), statement by statement -/\n"
+            "def from_bytes (data : RowBytes.Bytes) : RowGlue.Out :=\n  %s\n" % body)
 
 
 def _pinned():
@@ -341,16 +480,16 @@ def generate(o):
     row = Src("orso/row.py")
     pyx = Src("orso/compute/compiled.pyx")
     pinned = _pinned()
-    table = (("from_bytes_cython", lambda: t_from_bytes(pyx)), ("as_bytes_frame", lambda: t_as_bytes(row)))
+    table = (("from_bytes_cython", lambda: t_from_bytes(pyx)), ("as_bytes_frame", lambda: t_as_bytes(row)), ("from_bytes", lambda: t_glue(row)))
     fresh = {}
     for key, fn in table:
         fresh[key] = o.item("c01.fn." + key, fn, pinned.get(key, "-- %s: not translated\n" % key))
     if os.environ.get("ORSO_VERIF_WRITE_PINNED") == "c01_fns":
         os.makedirs(os.path.dirname(PINNED_FILE), exist_ok=True)
         json.dump(fresh, open(PINNED_FILE, "w"), indent=1, sort_keys=True)
-    header = HEADER + "import OrsoVerif.Model.RowCodec\n"
+    header = HEADER + "import OrsoVerif.Model.RowCodec\nimport OrsoVerif.Model.RowGlue\n"
     header += ("/-! `from_bytes_cython` (orso/compute/compiled.pyx, de-cythonised by harness/pyxshadow.py) and the framing part of\n"
-               "`Row.as_bytes` (orso/row.py) translated statement by statement (harness/pystmt.py, harness/extractors/c01_fns.py). -/\n")
+               "`Row.as_bytes` (orso/row.py) and the glue `Row.from_bytes` translated statement by statement (harness/pystmt.py,\nharness/extractors/c01_fns.py). -/\n")
     header += "set_option linter.unusedVariables false\nopen RowBytes RowCodec MsgPack\nnamespace Gen.RowFns\n\n"
     text, bad = pystmt.compile_checked(header, [(k, fresh[k]) for k, _ in table], "\nend Gen.RowFns\n", pinned, core.LEAN, "RowFns")
     for k in bad:
